@@ -123,6 +123,12 @@ def impl_values(net, directed, g0, g1, all_reach):
         put("nsi_harmonic_closeness", net.nsi_harmonic_closeness)
         put("nsi_exponential_closeness", net.nsi_exponential_closeness)
         put("nsi_global_efficiency", net.nsi_global_efficiency)
+        # measures outside the expression language: no theorem, invariance checked by the oracle
+        put("nsi_betweenness@oracle", net.nsi_betweenness)
+        if all_reach and n >= 3:
+            put("nsi_eigenvector_centrality@oracle", net.nsi_eigenvector_centrality)
+            put("nsi_newman_betweenness@oracle", net.nsi_newman_betweenness)
+            put("nsi_arenas_betweenness@oracle", net.nsi_arenas_betweenness)
         L1 = [i for i in range(n) if g0[i]]
         L2 = [i for i in range(n) if g1[i]]
         if L1 and L2:
@@ -158,14 +164,14 @@ def parse_model(ans):
     return out
 
 
-def close(a, b):
+def close(a, b, tol=1e-9):
     if a != a:          # NaN placeholder (node outside the group): not compared
         return True
     if b != b:
         return False
     if abs(a) == float("inf") or abs(b) == float("inf"):
         return a == b
-    return abs(a - b) <= 1e-9 * max(1.0, abs(a), abs(b))
+    return abs(a - b) <= tol * max(1.0, abs(a), abs(b))
 
 
 def gen_graphs(ctx):
@@ -234,7 +240,10 @@ def run(ctx):
     reqs, meta = [], []
     for gi, (A, directed) in enumerate(graphs):
         n = A.shape[0]
-        w = np.array([rng.choice([0.5, 1.0, 1.5, 2.0, 2.5, 4.0]) for _ in range(n)])
+        if gi % 3 == 2:
+            w = np.array([float(rng.choice([8, 12, 18, 24, 30, 36])) for _ in range(n)])
+        else:
+            w = np.array([rng.choice([0.5, 1.0, 1.5, 2.0, 2.5, 4.0]) for _ in range(n)])
         Wroot = np.zeros((n, n))
         for i in range(n):
             for j in range(n):
@@ -361,13 +370,14 @@ def oracle(ctx, base, spl, n, v, p, A, directed, w, Wroot, g0):
                          replay)
             continue
         ok = True
+        tol = 1e-6 if "@oracle" in name else 1e-9      # iterative solvers
         if len(b) == 1:
-            ok = close(b[0], s[0]) or (b[0] != b[0] and s[0] != s[0])
+            ok = close(b[0], s[0], tol) or (b[0] != b[0] and s[0] != s[0])
         elif len(b) == n:
             for i in range(n):
-                if not (close(b[i], s[i]) or (b[i] != b[i] and s[i] != s[i])):
+                if not (close(b[i], s[i], tol) or (b[i] != b[i] and s[i] != s[i])):
                     ok = False
-            if not (close(b[v], s[n]) or (b[v] != b[v] and s[n] != s[n])):
+            if not (close(b[v], s[n], tol) or (b[v] != b[v] and s[n] != s[n])):
                 ok = False
         elif len(b) == n * n:
             for i in range(n):
